@@ -2,7 +2,8 @@
 # usage: tools/selftest.sh [name-filter]
 # Tests the checks both ways against committed fixtures, in a scratch worktree of /repo HEAD (removed afterwards):
 #   fixtures/fire/<Cxx[+Cyy..]>__<what>.diff    every listed check must report a violation (exit 1 with a VIOLATION line)
-#   fixtures/silent/<Cxx[+Cyy..]>__<what>.diff  every listed check must stay silent (exit 0)
+#   fixtures/silent/<Cxx[+Cyy..]>__<what>.diff  every listed check must stay silent (exit 0); the prefix ALL means all twenty checks
+#                                               (ALL__refactor_Cxx_N.diff: behaviour-preserving refactorings written by sub-agents)
 #   seeded/<Cxx>_<V>/patch.diff                 the check of Cxx must report a violation
 # Each fixture compiles and keeps the pinned test-suite green (confirmed when it was written). Prints one line per case; exit 1 if any case fails.
 WT=/tmp/selftest_wt
@@ -32,6 +33,7 @@ for kind in fire silent; do
     [ -e "$p" ] || continue
     b=$(basename $p); case "$b" in *"$F"*) ;; *) continue;; esac
     props=$(echo "${b%%__*}" | tr '+' ' ')
+    [ "$props" = "ALL" ] && props="C01 C02 C03 C04 C05 C06 C07 C08 C09 C10 C11 C12 C13 C14 C15 C16 C17 C18 C19 C20"
     run_case $kind $p $props
   done
 done
